@@ -185,8 +185,13 @@ class LocMap:
                     pos = attr # should be an integer
 
                 if field == SLICE_STOP_ATTR:
-                    # loc selections are inclusive, so iloc gets one more
-                    pos += 1 #type: ignore
+                    # loc selections are inclusive, so iloc gets one more in the direction of the step
+                    if key.step.__class__ is int and key.step < 0:
+                        pos -= 1 #type: ignore
+                        if pos < 0:
+                            pos = None # the stop label is the first position
+                    else:
+                        pos += 1 #type: ignore
 
                 yield pos
 
